@@ -3,6 +3,10 @@ From GoCoap Require Import Base.Cases Base.Bytes NoResp.Model NoResp.Spec Dedup.
 Import ListNotations.
 Open Scope Z_scope.
 
+(* a request that was received and completely processed while a sweep was in flight (see [HSweep]) *)
+Inductive hreq :=
+| HR (typ mid : Z) (tok : list Z) (code : Z) (reqopts : opts_t) (b : behaviour) (called : bool) (out : list owire).
+
 (* one event of a history with what was observed on the implementation *)
 Inductive hev :=
 | HReq (typ mid : Z) (tok : list Z) (code : Z) (reqopts : opts_t) (b : behaviour) (called : bool) (out : list owire)
@@ -10,6 +14,12 @@ Inductive hev :=
 | HReqU (u : ruse) (typ mid : Z) (tok : list Z) (code : Z) (reqopts : opts_t) (b : behaviour) (called : bool) (out : list owire)
 | HAge (ms : Z)
 | HTick (out : list owire)
+(* a housekeeping sweep (Conn.CheckExpirations) during which -- between two of its steps: after it has found a cached
+   reply expired and before it removes it, or after it has fetched an entry and before it looks at it -- the requests
+   [inner] were received and completely processed.  Judged and compared as "the inner requests, then Tick":
+   Dedup/Sweep.v ([sweep_unobservable]) proves that the steps of sweeps, interleaved in any way with the events of
+   a history, change no observation. *)
+| HSweep (inner : list hreq) (out : list owire)
 | HDrop (typ mid : Z) (called : bool) (out : list owire)
 | HPing (mid : Z) (called : bool) (out : list owire)
 | HSend (typ : Z) (tok : list Z) (code : Z) (opts : opts_t) (pay : list Z) (called : bool) (out : list owire).
@@ -20,7 +30,7 @@ Definition to_ev (e : hev) : ev :=
   match e with
   | HReq t m tok c ro b _ _ | HReqU _ t m tok c ro b _ _ => Req t m tok c ro b
   | HAge ms => Age ms
-  | HTick _ => Tick
+  | HTick _ | HSweep _ _ => Tick
   | HDrop t m _ _ => Drop t m
   | HPing m _ _ => Ping m
   | HSend t tok c o p _ _ => Send t tok c o p
@@ -30,6 +40,7 @@ Definition to_ev (e : hev) : ev :=
 Definition wf_hev (e : hev) : bool :=
   match e with
   | HReq t _ tok c ro _ _ _ | HReqU _ t _ tok c ro _ _ _ => negb ((t =? 0) && (c =? 0) && (blen tok =? 0) && (blen ro =? 0))
+  | HSweep _ _ => false        (* histories are expanded ([expand]) before they are evaluated *)
   | _ => true
   end.
 
@@ -41,7 +52,7 @@ Definition obs_agrees (o : obs) (e : hev) : bool :=
   match e with
   | HReq _ _ _ _ _ _ called out | HReqU _ _ _ _ _ _ _ called out => Bool.eqb (o_called o) called && list_rel wire_agrees (o_out o) out
   | HAge _ => true
-  | HTick out => list_rel wire_agrees (o_out o) out
+  | HTick out | HSweep _ out => list_rel wire_agrees (o_out o) out
   | HDrop _ _ called out | HPing _ called out | HSend _ _ _ _ _ called out =>
       Bool.eqb (o_called o) called && list_rel wire_agrees (o_out o) out
   end.
@@ -60,13 +71,19 @@ Fixpoint hist_agrees (s : st) (h : list hev) : bool :=
   | e :: r => let '(s1, o) := step_h s e in wf_hev e && obs_agrees o e && hist_agrees s1 r
   end.
 
-Definition agrees (c : case) : bool := match c with Hist own0 h => hist_agrees (init own0) h end.
+(* a sweep with requests processed in its window = those requests, then the sweep *)
+Definition hreq_hev (r : hreq) : hev := match r with HR t m tok c ro b called out => HReq t m tok c ro b called out end.
+Definition expand1 (e : hev) : list hev :=
+  match e with HSweep inner out => map hreq_hev inner ++ [HTick out] | _ => [e] end.
+Definition expand (h : list hev) : list hev := flat_map expand1 h.
+
+Definition agrees (c : case) : bool := match c with Hist own0 h => hist_agrees (init own0) (expand h) end.
 
 Definition to_oev (e : hev) : oev :=
   match e with
   | HReq t m _ _ _ _ called out | HReqU _ t m _ _ _ _ called out => {| k := KReq; typ := t; mid := m; ms := 0; called := called; out := out |}
   | HAge d => {| k := KAge; typ := 0; mid := 0; ms := d; called := false; out := [] |}
-  | HTick out => {| k := KTick; typ := 0; mid := 0; ms := 0; called := false; out := out |}
+  | HTick out | HSweep _ out => {| k := KTick; typ := 0; mid := 0; ms := 0; called := false; out := out |}
   | HDrop t m called out => {| k := KOther; typ := t; mid := m; ms := 0; called := called; out := out |}
   | HPing m called out => {| k := KOther; typ := 0; mid := m; ms := 0; called := called; out := out |}
   | HSend t _ _ _ _ called out => {| k := KOther; typ := t; mid := 0; ms := 0; called := called; out := out |}
@@ -106,7 +123,8 @@ Fixpoint first_nonzero (l : list N) : N :=
   match l with [] => 0%N | c :: r => if N.eqb c 0 then first_nonzero r else c end.
 
 Definition pclass (c : case) : N :=
-  match c with Hist _ h =>
+  match c with Hist _ h0 =>
+    let h := expand h0 in
     let c5 := c05_class (map to_oev h) in
     if N.eqb c5 0 then first_nonzero (map (fun e => wire_clause (strip_use e)) h) else c5
   end.
